@@ -72,6 +72,8 @@ type waiter struct {
 	target   uint32
 	short    bool
 	parked   bool // held at the entry of its select by the script (w:i:t:P until r:i)
+	wid      uint64 // its wait-list id, 0 when subscribe short-circuited
+	xdone    bool   // its x step (wait for the short timer) has been executed
 	returned atomic.Bool
 	err      error
 	started  time.Time
@@ -87,6 +89,8 @@ type env struct {
 	ws       map[int]*waiter
 	order    []int
 	hung     string
+	shortTO  time.Duration
+	anomaly  bool // a short timer fired before its script step: the schedule was not realised as scripted
 }
 
 func newEnv(strategy string, heads []uint32, best int) *env {
@@ -113,16 +117,56 @@ func newEnv(strategy string, heads []uint32, best int) *env {
 	return e
 }
 
-// guarded runs f and reports whether it finished within the watchdog.
-func guarded(f func()) bool {
-	done := make(chan struct{})
-	go func() { f(); close(done) }()
-	select {
-	case <-done:
-		return true
-	case <-time.After(watchdog):
-		return false
+// await waits for cond. It gives up (returns false) only when cond stayed false for a full watchdog period during
+// which this process was demonstrably running at its normal pace (a control goroutine sleeping 1 ms at a time kept at
+// least half of its ticks): a stalled or overloaded machine is not a hang, a deadlock persists however long one waits.
+func await(cond func() bool) bool {
+	for round := 0; round < 12; round++ {
+		var ticks atomic.Int64
+		stop := make(chan struct{})
+		go func() {
+			for {
+				select {
+				case <-stop:
+					return
+				default:
+				}
+				time.Sleep(time.Millisecond)
+				ticks.Add(1)
+			}
+		}()
+		ok := waitUntil(watchdog, cond)
+		close(stop)
+		if ok {
+			return true
+		}
+		if ticks.Load() >= int64(watchdog/time.Millisecond)/2 {
+			return false
+		}
 	}
+	return false
+}
+
+// awaitChan: await a value on ch.
+func awaitChan(ch <-chan struct{}) bool {
+	got := false
+	return await(func() bool {
+		if !got {
+			select {
+			case <-ch:
+				got = true
+			default:
+			}
+		}
+		return got
+	})
+}
+
+// guarded runs f and reports whether it finished (see await).
+func guarded(f func()) bool {
+	var done atomic.Bool
+	go func() { f(); done.Store(true) }()
+	return await(done.Load)
 }
 
 func waitUntil(max time.Duration, cond func() bool) bool {
@@ -155,35 +199,32 @@ func (e *env) progress() int64 {
 
 // settle waits until at least `want` progress events (select re-entries or returns) happened since `from`, no
 // registered channel holds an unread head, and the progress counter has been stable for a moment.
-func (e *env) parkedActive() int {
-	n := 0
-	for _, w := range e.ws {
-		if w.parked && !w.returned.Load() {
-			n++
-		}
-	}
-	return n
-}
-
-func (e *env) settle(from int64, want int64) {
-	pk := e.parkedActive()
-	if want -= int64(pk); want < 0 {
-		want = 0
-	}
-	waitUntil(300*time.Millisecond, func() bool { return e.progress() >= from+want })
-	if !guarded(func() { waitUntil(300*time.Millisecond, func() bool { return e.p.VerifUnreadHeads() <= pk }) }) {
-		e.hung = "settle"
-		return
-	}
+// expectEvents waits for `want` progress events (select re-entries or returns) since `from`. The count is what the
+// CORRECT code produces; it is only a pacing hint: if the events do not come (mutated code) the wait times out and
+// the observation that follows differs from the model's.
+func (e *env) expectEvents(from int64, want int64) {
+	await(func() bool { return e.progress() >= from+want })
+	// grace for events the hint did not foresee
 	last, stable := e.progress(), 0
-	for i := 0; i < 2000 && stable < 4; i++ {
-		time.Sleep(150 * time.Microsecond)
+	for i := 0; i < 2000 && stable < 3; i++ {
+		time.Sleep(100 * time.Microsecond)
 		if cur := e.progress(); cur == last {
 			stable++
 		} else {
 			last, stable = cur, 0
 		}
 	}
+}
+
+// listening: registered waiters that are in their select (not parked, not returned)
+func (e *env) listening() int64 {
+	var n int64
+	for _, w := range e.ws {
+		if w.wid != 0 && !w.parked && !w.returned.Load() {
+			n++
+		}
+	}
+	return n
 }
 
 func (e *env) startWaiter(i int, target uint32, short bool, park bool) {
@@ -193,8 +234,9 @@ func (e *env) startWaiter(i int, target uint32, short bool, park bool) {
 	e.order = append(e.order, i)
 	to := longTimeout
 	if short {
-		to = shortTimeout
+		to = e.shortTO
 	}
+	idBefore := e.p.VerifLastWaitID()
 	go func() {
 		defer func() {
 			if r := recover(); r != nil {
@@ -205,21 +247,23 @@ func (e *env) startWaiter(i int, target uint32, short bool, park bool) {
 		w.err = e.p.WaitMasterchainSeqno(w.ctx, target, to)
 		w.returned.Store(true)
 	}()
-	if !waitUntil(watchdog, func() bool { return w.ctx.evals.Load() >= 1 || w.returned.Load() }) {
+	if !await(func() bool { return w.ctx.evals.Load() >= 1 || w.returned.Load() }) {
 		e.hung = fmt.Sprintf("subscribe waiter=%d", i)
 		return
 	}
-	if park {
-		select {
-		case <-w.ctx.parked:
-		case <-time.After(watchdog):
-			if !w.returned.Load() {
-				e.hung = fmt.Sprintf("waiter=%d does not reach its select", i)
-				return
-			}
-		}
+	if id := e.p.VerifLastWaitID(); id != idBefore {
+		w.wid = id
 	}
-	e.settle(e.progress(), 0)
+	if park {
+		if !awaitChan(w.ctx.parked) && !w.returned.Load() {
+			e.hung = fmt.Sprintf("waiter=%d does not reach its select", i)
+		}
+		return
+	}
+	if w.wid == 0 {
+		// subscribe short-circuited: the head is in its channel, the correct code returns at once
+		await(func() bool { return w.returned.Load() })
+	}
 }
 
 // unpark lets a parked waiter enter its select.
@@ -233,11 +277,13 @@ func (e *env) unpark(i int) {
 		return
 	}
 	from := e.progress()
+	var want int64
+	if w.wid == 0 || e.p.VerifUnreadOf(w.wid) > 0 {
+		want = 1 // a head is waiting in its channel: it receives it and re-enters its select or returns
+	}
 	w.ctx.hold.Store(false)
 	w.ctx.release <- struct{}{}
-	// it either blocks in the select (no progress event) or receives a head and re-enters / returns
-	waitUntil(2*time.Millisecond, func() bool { return e.progress() > from })
-	e.settle(from, 0)
+	e.expectEvents(from, want)
 }
 
 func (e *env) publish(c int, q uint32) {
@@ -246,7 +292,7 @@ func (e *env) publish(c int, q uint32) {
 	from := e.progress()
 	var served int64
 	if e.p.VerifBestID() == c {
-		served = int64(e.p.VerifWaitListLen())
+		served = e.listening()
 	}
 	if !guarded(func() { e.vs[c].SetMasterHead(pool.VerifHead(q)) }) {
 		e.hung = fmt.Sprintf("SetMasterHead conn=%d seqno=%d", c, q)
@@ -255,7 +301,7 @@ func (e *env) publish(c int, q uint32) {
 	if q <= before {
 		return
 	}
-	if !waitUntil(watchdog, func() bool { return e.idCalls.Load() > idBefore && e.p.VerifUpdatesPending() == 0 }) {
+	if !await(func() bool { return e.idCalls.Load() > idBefore && e.p.VerifUpdatesPending() == 0 }) {
 		e.hung = fmt.Sprintf("update conn=%d seqno=%d not taken by Run", c, q)
 		return
 	}
@@ -264,7 +310,7 @@ func (e *env) publish(c int, q uint32) {
 		e.hung = fmt.Sprintf("Status() after update conn=%d seqno=%d", c, q)
 		return
 	}
-	e.settle(from, served)
+	e.expectEvents(from, served)
 }
 
 func (e *env) tick(mask int, rtts []int64) {
@@ -290,11 +336,12 @@ func (e *env) leave(i int, cancel bool) {
 	} else if !w.short {
 		return
 	}
-	if !waitUntil(watchdog, func() bool { return w.returned.Load() }) {
-		e.hung = fmt.Sprintf("waiter=%d does not return after %s", i, map[bool]string{true: "cancel", false: "timeout"}[cancel])
-		return
+	if !cancel {
+		waitUntil(2*e.shortTO, func() bool { return w.returned.Load() })
 	}
-	e.settle(e.progress(), 0)
+	if !await(func() bool { return w.returned.Load() }) {
+		e.hung = fmt.Sprintf("waiter=%d does not return after %s", i, map[bool]string{true: "cancel", false: "timeout"}[cancel])
+	}
 }
 
 func (e *env) obs(n int) string {
@@ -312,6 +359,9 @@ func (e *env) obs(n int) string {
 			sb.WriteByte('-')
 		case !w.returned.Load():
 			sb.WriteByte('w')
+		case w.short && !w.xdone && w.err != nil && w.err.Error() == "timeout":
+			e.anomaly = true
+			sb.WriteByte('e')
 		case w.err == nil:
 			sb.WriteByte('o')
 		case w.err.Error() == "panic":
@@ -436,9 +486,11 @@ func parseRtts(s string) []int64 {
 
 // runScript executes the scenario once. Returns the observations, "" + hang description on a hang, and whether a
 // short timer fired before its script step (timing anomaly: the schedule was not realised as scripted).
-func runScript(s script) (obs []string, hung string, anomaly bool) {
+func runScript(s script, shortTO time.Duration) (obs []string, hung string, anomaly bool) {
 	e := newEnv(s.strategy, s.heads, s.best)
+	e.shortTO = shortTO
 	defer e.close()
+	defer func() { anomaly = anomaly || e.anomaly }()
 	for _, st := range s.steps {
 		f := strings.Split(st, ":")
 		switch f[0] {
@@ -453,8 +505,11 @@ func runScript(s script) (obs []string, hung string, anomaly bool) {
 		case "c":
 			e.leave(atoi(f[1]), true)
 		case "x":
-			if w, ok := e.ws[atoi(f[1])]; ok && w.short && w.returned.Load() && w.err != nil {
-				anomaly = true
+			if w, ok := e.ws[atoi(f[1])]; ok && w.short && !w.parked {
+				if w.returned.Load() && w.err != nil && w.err.Error() == "timeout" {
+					anomaly = true
+				}
+				w.xdone = true
 			}
 			e.leave(atoi(f[1]), false)
 		default:
@@ -489,9 +544,11 @@ func runScript(s script) (obs []string, hung string, anomaly bool) {
 }
 
 func runScriptStable(s script) ([]string, string) {
+	// a short timer that fires before its script step (machine under load) invalidates the run: repeat it with a
+	// longer timer
 	for try := 0; ; try++ {
-		obs, hung, anomaly := runScript(s)
-		if hung != "" || !anomaly || try == 4 {
+		obs, hung, anomaly := runScript(s, shortTimeout<<uint(try))
+		if hung != "" || !anomaly || try == 5 {
 			return obs, hung
 		}
 	}
@@ -658,15 +715,20 @@ func goAdvCancel(a []string) string {
 			return false
 		}
 		seq++
-		return waitUntil(watchdog, func() bool { return e.idCalls.Load() > idBefore && e.p.VerifUpdatesPending() == 0 })
+		return await(func() bool { return e.idCalls.Load() > idBefore && e.p.VerifUpdatesPending() == 0 })
 	}
 	for r := 0; r < rounds && !w.returned.Load(); r++ {
-		select {
-		case <-w.ctx.parked:
-		case <-time.After(watchdog):
-			if w.returned.Load() {
-				break
+		reparked := false
+		if !await(func() bool {
+			if !reparked {
+				select {
+				case <-w.ctx.parked:
+					reparked = true
+				default:
+				}
 			}
+			return reparked || w.returned.Load()
+		}) {
 			return "FAIL hang waiter neither re-entered its select nor returned; goroutines: " + poolGoroutines()
 		}
 		if w.returned.Load() {
@@ -696,7 +758,7 @@ func goAdvCancel(a []string) string {
 	case w.ctx.release <- struct{}{}:
 	default:
 	}
-	if !waitUntil(watchdog, func() bool { return w.returned.Load() }) {
+	if !await(func() bool { return w.returned.Load() }) {
 		return "FAIL hang waiter does not return after cancellation; goroutines: " + poolGoroutines()
 	}
 	if w.err == nil {
@@ -734,9 +796,7 @@ func goAdvPublish(a []string) string {
 	ctx, stop := context.WithCancel(context.Background())
 	defer stop()
 	go p.Run(ctx)
-	select {
-	case <-parked:
-	case <-time.After(watchdog):
+	if !awaitChan(parked) {
 		close(release)
 		return "FAIL hang Run never reached updateBest"
 	}
@@ -752,7 +812,7 @@ func goAdvPublish(a []string) string {
 	waitUntil(100*time.Millisecond, func() bool { return int(published.Load()) == n })
 	time.Sleep(time.Millisecond)
 	close(release)
-	if !waitUntil(watchdog, func() bool { return int(published.Load()) == n && p.VerifUpdatesPending() == 0 }) {
+	if !await(func() bool { return int(published.Load()) == n && p.VerifUpdatesPending() == 0 }) {
 		return fmt.Sprintf("FAIL hang published=%d/%d pending=%d; goroutines: %s", published.Load(), n, p.VerifUpdatesPending(), poolGoroutines())
 	}
 	if !guarded(func() { p.ConnectionsNumber(); p.Status() }) {
@@ -889,7 +949,7 @@ func goAdvRandom(a []string) string {
 	}
 	for i := 0; i < nw; i++ {
 		w := e.ws[i]
-		if !waitUntil(watchdog, func() bool { return w.returned.Load() }) {
+		if !await(func() bool { return w.returned.Load() }) {
 			return fmt.Sprintf("FAIL hang waiter %d does not return; goroutines: %s", i, poolGoroutines())
 		}
 		if w.err == nil && w.target > final {
@@ -902,7 +962,7 @@ func goAdvRandom(a []string) string {
 	if !guarded(func() { p.ConnectionsNumber(); p.Status() }) {
 		return "FAIL hang pool lock not available; goroutines: " + poolGoroutines()
 	}
-	if !waitUntil(watchdog, func() bool { return p.VerifUpdatesPending() == 0 }) {
+	if !await(func() bool { return p.VerifUpdatesPending() == 0 }) {
 		return "FAIL hang Run does not drain the update channel; goroutines: " + poolGoroutines()
 	}
 	if n := p.VerifWaitListLen(); n != 0 {
